@@ -16,8 +16,12 @@ class G:
     """One generation run: wraps `draw` and carries the counters that make names unique."""
 
     def __init__(self, draw, *, flat=False, macros=False, max_stmts=40, max_depth=4, pos_marks=True, strings="simple",
-                 labels=True, coro_file=None):
+                 labels=True, coro_file=None, with_control=False):
         self.draw = draw
+        # with-blocks around jumps / calls / control statements: accepted by the language, but what a jump executed
+        # "in the context of" an entity does is not specified - only checks whose oracle does not need the machine
+        # semantics switch this on
+        self.with_control = with_control
         self.flat = flat
         self.n_op = 0
         self.n_var = 0
@@ -214,12 +218,19 @@ class G:
             s = self.lone_control(in_loop, in_case)
             if s is not None:
                 self.take()
-                return [s]
+                return [self.maybe_with(s)]
         for _ in range(n):
             if self.budget <= 0:
                 break
             out.append(self.stmt(depth, in_loop, in_case))
         return out
+
+    def maybe_with(self, s):
+        """a with-block takes any simple statement but a label (language_spec: with-Blocks): also jumps, calls and
+        control statements"""
+        if self.with_control and self.b(1, 5):
+            return {"k": "with", "type": self.pick(["actor", "object", "performer"]), "val": self.ctx_target(), "stmt": s}
+        return s
 
     def lone_control(self, in_loop, in_case):
         opts = []
@@ -376,12 +387,12 @@ class G:
         if k < 24:
             c = self.lone_control(in_loop, in_case)
             if c is not None and not (c["k"] == "ctl" and c["v"] == "return" and self.b()):
-                return c
+                return self.maybe_with(c)
             return self.plain_simple()
         if k < 26 and self.use_labels and self.label_pool:
             lab = self.pick(self.label_pool)
             self.labels_used.add(lab)
-            return {"k": self.pick(["jump", "jump", "call"]), "label": lab}
+            return self.maybe_with({"k": self.pick(["jump", "jump", "call"]), "label": lab})
         if k < 28 and self.use_labels:
             undefined = [lab for lab in self.label_pool if lab not in self.labels_defined]
             if undefined:
@@ -390,7 +401,7 @@ class G:
                 return {"k": "label", "name": lab}
             return self.plain_simple()
         if k == 28:
-            return {"k": "ctl", "v": self.pick(["return", "end", "hold"])}
+            return self.maybe_with({"k": "ctl", "v": self.pick(["return", "end", "hold"])})
         if self.macro_names:
             return self.macro_call()
         return self.plain_simple()
@@ -465,8 +476,8 @@ class G:
 
 
 @st.composite
-def programs(draw, flat=False, max_stmts=40, pos_marks=True, labels=True):
-    g = G(draw, flat=flat, max_stmts=max_stmts, pos_marks=pos_marks, labels=labels)
+def programs(draw, flat=False, max_stmts=40, pos_marks=True, labels=True, with_control=False):
+    g = G(draw, flat=flat, max_stmts=max_stmts, pos_marks=pos_marks, labels=labels, with_control=with_control)
     return {"imports": [], "macros": [], "routines": g.routines()}
 
 
@@ -530,6 +541,8 @@ def classify(program) -> set[str]:
                 out.add("fallthrough")
         if k == "op" and s.get("ctx"):
             out.add("inline_ctx")
+        if k == "with" and s["stmt"]["k"] in ("ctl", "jump", "call"):
+            out.add("with_around_control_stmt")
 
     for r in program["routines"]:
         if r.get("alias"):
